@@ -54,14 +54,14 @@ CHECKS = {
         text="Every label array of length 0-4 (thorough 0-5) over {-1,0,1,2,5} x operations {Box, Ball, Translation, Rotation} x {random, every pre-selected} target, with every answer of the particle choice enumerated on the real DisplacementMove: moved atoms == atoms of the selected label, displacement == the single recorded operation result (common vector / rigid), negative labels never move, uniform choice over eligible labels, failure changes nothing. Composites D*n and D+...+D (n=1..3): every choice sequence; no particle twice, moved == min(n, eligible), report equals what positions show.",
         design_ref="4-C11",
         note="One proposal value per continuous draw (the statement is about which atoms move). Atoms <= 5, unconstrained.",
-        technique="exhaustive enumeration of inputs and particle-choice answers on the implementation with set/shape oracles",
+        technique="exhaustive enumeration of label arrays, particle-choice and geometric-check answers, one- and two-call histories on one move object and composite plans on the implementation, with set/shape oracles",
     ),
     "C02": dict(
         category="exploration",
         text="Every shipped criteria is evaluated on directly built contexts over a grid of temperatures (1e-3..1e5 K), energy differences (0..+-1e6 eV, |dE|/kT up to 1e13), reference/trial cells (cubic, orthorhombic, triclinic x isotropic, shear, general deformations), atom counts, pressures, external stresses, chemical potentials, species masses, volumes and particle numbers. The threshold the code compares its uniform with is captured and compared in log space with the textbook formula from independent constants; the boolean decision is re-evaluated with scripted uniforms 0, t-ulp, t, t+ulp, 1-2^-53 around the code's own threshold. Parameter changes on the simulation object (every documented setter) are explored as choice points of real simulations (sequences of length 2-3).",
         design_ref="4-C02",
         note="Exhaustive over the grid only. The isotension strain measure is not pinned by the property: the check uses the strain the criteria exposes and requires it to vanish for an unchanged cell; the hydrostatic clause (identical to isobaric) is checked on every cell pair.",
-        technique="exhaustive grid enumeration of the decision function with threshold capture and scripted boundary uniforms; parameter-change sequences explored as choice points",
+        technique="exhaustive grid enumeration of the decision function with threshold capture and scripted boundary uniforms; parameter-change sequences and real trials (all proposal, geometric-check and verdict answers to depth 2-3) explored as choice points and judged from the harness's own particle count and a time-reversed reference trajectory",
     ),
     "C10": dict(
         category="exploration",
@@ -89,7 +89,7 @@ CHECKS = {
         text="For every public module of the package (41; thorough adds every ordered pair of top-level sub-packages) a fresh interpreter imports that module first, then the rest of the package, then round-trips (to_dict -> ASE JSON -> class looked up by registered name -> from_dict -> to_dict) every concrete serializable class found by pkgutil/inspect, with each constructor parameter set to a non-default value one at a time and all together (masks, nested composites, integrator settings, max_attempts, default_label), comparing type, every constructor parameter / documented attribute, and the re-serialised dictionary; every Monte Carlo driver with all settings non-default is round-tripped through to_dict and through the restart file after two real steps.",
         design_ref="4-C08",
         note="Parameter alphabet is name-driven (reported: parameters without an alphabet entry). Callables and one-shot fields excepted. Base*/stub classes are not 'concrete'.",
-        technique="exhaustive enumeration of (first-imported module) x (class) x (non-default parameter) in fresh interpreters running the implementation's own serialization code",
+        technique="exhaustive enumeration of (first-imported module) x (class) x (non-default and boundary parameter values, tunables set after construction) in fresh interpreters running the implementation's own serialization code",
     ),
     "C07": dict(
         category="fault_enumeration",
@@ -103,7 +103,7 @@ CHECKS = {
         text="Configuration alphabet enumerated completely: 7 drivers (Canonical, HamiltonianCanonical, Isobaric, Isotension, GrandCanonical, ForceBias, AdaptiveForceBias) x 12 move tables x seeds {0,1,2,42,2^32-1,2^32,2^63,2^64-1,f(VERIF_SEED)} x global-generator states {untouched, reseeded differently before each run, consumed between runs}: two simulations in one process, 5 steps, compared bitwise after every step (atoms, move history) and in log text; the seed used must be the seed given; different seeds must give different trajectories; draws from numpy's/Python's global generators made from quansino code while a simulation runs are trapped with their call site.",
         design_ref="4-C06",
         note="PCG64's quality is trusted. Names bound at import time (from numpy.random import ...) escape the monitor and are covered by the run-twice comparison only.",
-        technique="exhaustive enumeration of a finite configuration alphabet on the implementation, run-twice bitwise differential plus global-draw monitor",
+        technique="exhaustive enumeration of a finite alphabet (configuration x seed incl. numpy scalars x process state: global generators, re-tuned earlier simulation, shared criteria objects, PYTHONHASHSEED of fresh interpreters) on the implementation, run-twice bitwise differential plus global-draw monitor",
     ),
     "C18": dict(
         category="exploration",
